@@ -168,6 +168,60 @@ func TestVerifC08(t *testing.T) {
 		h.Inc("credit_cases")
 		h.Distinct("credit", i)
 	}
+	// whole accumulations: whatever the program does and however it ends (halt, trap, bad jump, panicking host call, out of
+	// gas at a random point), balances + the transfers handed back never exceed what the service started with
+	np := h.N(2500, 60000)
+	for i := 0; i < np; i++ {
+		if !h.Mine("whole", i) {
+			continue
+		}
+		h.CaseLight("whole", i)
+		var before *big.Int
+		mk := func() (*vHC, vAccProgram) {
+			r := h.Rng("whole", i)
+			c := vNewHC(r)
+			a := c.add.ResultContextY.PartialState.ServiceAccounts[c.caller]
+			a.ServiceInfo.Balance += 50000
+			c.add.ResultContextY.PartialState.ServiceAccounts[c.caller] = a
+			before = vBig()
+			for _, acc := range c.add.ResultContextY.PartialState.ServiceAccounts {
+				before.Add(before, bigU(acc.ServiceInfo.Balance))
+			}
+			return c, vGenAccProgram(r, c)
+		}
+		judge := func(label string, run vAccRun, p vAccProgram) {
+			if run.goPanic != "" {
+				return // C10 / C03 report crashes
+			}
+			after := vBig()
+			for _, acc := range run.res.PartialStateSet.ServiceAccounts {
+				after.Add(after, bigU(acc.ServiceInfo.Balance))
+			}
+			for _, tr := range run.res.DeferredTransfers {
+				after.Add(after, bigU(tr.Balance))
+			}
+			if after.Cmp(before) > 0 {
+				h.Viol("whole", i, "", "ledger: balances plus deferred transfers after an accumulation exceed the total before it",
+					map[string]any{"run": label, "before": before.String(), "after": after.String(), "calls": fmt.Sprint(p.calls), "ending": p.ending, "transfers_returned": len(run.res.DeferredTransfers)})
+			}
+			h.Inc("whole_accumulations_" + label)
+			if len(run.res.DeferredTransfers) > 0 {
+				h.Inc("whole_accumulations_returning_transfers")
+			}
+		}
+		runA, p := vRunAcc(mk, 1_000_000)
+		lbl := "halt"
+		if p.ending != "halt" || (runA.lastExit.GetReasonType() == PANIC && runA.hostCalls > 0) {
+			lbl = "exceptional"
+		}
+		judge(lbl, runA, p)
+		if used := uint64(runA.res.Gas); runA.goPanic == "" && used > 1 {
+			g := types.Gas(h.Rng("whole-gas", i).Uint64() % used)
+			runB, pB := vRunAcc(mk, g)
+			judge("out_of_gas", runB, pB)
+		}
+		h.Distinct("whole", i)
+	}
 }
 
 func TestVerifC09(t *testing.T) {
